@@ -541,7 +541,11 @@ func GetParentForEntry(storer gitstore.Storer, entry Entry) (Entry, error) {
 	if err == nil && has {
 		// We don't need to check the parent's Number here because it was
 		// checked when this was set in the cache
-		return GetEntry(storer, parentID)
+		parentEntry, err := GetEntry(storer, parentID)
+		if err != nil {
+			return nil, withoutEntryNotFound(err)
+		}
+		return parentEntry, nil
 	}
 
 	parentIDs, err := storer.GetCommitParentIDs(entry.GetID())
@@ -560,7 +564,10 @@ func GetParentForEntry(storer gitstore.Storer, entry Entry) (Entry, error) {
 	parentID = parentIDs[0]
 	parentEntry, err := GetEntry(storer, parentID)
 	if err != nil {
-		return nil, err
+		// The parent is named by the entry itself, so failing to load it
+		// is a storage or format problem and must not be mistaken for
+		// having reached the start of the RSL
+		return nil, withoutEntryNotFound(err)
 	}
 
 	switch entry.GetNumber() {
@@ -648,7 +655,40 @@ func GetLatestEntry(storer gitstore.Storer) (Entry, error) {
 		return nil, err
 	}
 
-	return GetEntry(storer, commitID)
+	entry, err := GetEntry(storer, commitID)
+	if err != nil {
+		// The RSL reference exists, so failing to load its tip does not
+		// mean the RSL is empty
+		return nil, withoutEntryNotFound(err)
+	}
+	return entry, nil
+}
+
+// withoutEntryNotFound returns an error that carries err's message but no
+// longer matches ErrRSLEntryNotFound. It is used when the entry that could
+// not be loaded is one the repository itself names (the tip of the RSL
+// reference, the parent of a loaded entry): callers treat ErrRSLEntryNotFound
+// as "the RSL is empty" or "this is the first entry", which a failed read must
+// never be mistaken for.
+func withoutEntryNotFound(err error) error {
+	if err == nil || !errors.Is(err, ErrRSLEntryNotFound) {
+		return err
+	}
+
+	// Keep the underlying causes, drop only the sentinel
+	if joined, isJoined := err.(interface{ Unwrap() []error }); isJoined {
+		causes := []error{}
+		for _, cause := range joined.Unwrap() {
+			if !errors.Is(cause, ErrRSLEntryNotFound) {
+				causes = append(causes, cause)
+			}
+		}
+		if len(causes) != 0 {
+			return fmt.Errorf("unable to load RSL entry: %w", errors.Join(causes...))
+		}
+	}
+
+	return fmt.Errorf("unable to load RSL entry: %s", err.Error())
 }
 
 // GetLatestReferenceUpdaterEntry returns the latest reference updater entry in
